@@ -126,16 +126,30 @@ func VH_C20_stat_field() {
 	v.Cover("done")
 }
 
-func class32(x uint32) bool { return x == 0 || x < 0x80 || x >= 1<<28 }
-func class64(x int64) bool  { return x == 0 || (x > 0 && x < 0x80) || x < 0 }
+func class32(x uint32) bool { return v.Or(x < 0x80, x >= 1<<28) }
+func class64(x int64) bool  { return v.Or(v.And(x >= 0, x < 0x80), x < 0) }
 
-// VH_C20_stat_all: all fields together, each numeric field restricted to the size classes
-// {0, one byte, maximal}; strings of L bytes (any byte values), one xattr.
+// VH_C20_stat_all: all fields set together; two numeric fields (pair G) symbolic over the size
+// classes {0, one byte, maximal}, the others fixed to one value of each class; strings of L bytes (any
+// byte values), one optional xattr.
 func VH_C20_stat_all() {
 	l := v.Param("L", 1)
-	s := Stat{Path: v.String("path", l), Mode: v.U32("mode"), Uid: v.U32("uid"), Gid: v.U32("gid"), Size: v.I64("size"),
-		ModTime: v.I64("mtime"), Linkname: v.String("link", l), Devmajor: v.I64("major"), Devminor: v.I64("minor")}
-	v.Assume(class32(s.Mode) && class32(s.Uid) && class32(s.Gid) && class64(s.Size) && class64(s.ModTime) && class64(s.Devmajor) && class64(s.Devminor))
+	g := v.Param("G", 0) // which group of numeric fields is symbolic (the others take fixed values of each class)
+	s := Stat{Path: v.String("path", l), Linkname: v.String("link", l), Mode: 0644, Uid: 1 << 30, Size: -1, ModTime: 5, Devmajor: 0, Devminor: 1 << 40}
+	switch g {
+	case 0:
+		s.Mode, s.Size = v.U32("mode"), v.I64("size")
+		v.Assume(v.And(class32(s.Mode), class64(s.Size)))
+	case 1:
+		s.Uid, s.Gid = v.U32("uid"), v.U32("gid")
+		v.Assume(v.And(class32(s.Uid), class32(s.Gid)))
+	case 2:
+		s.ModTime, s.Devmajor = v.I64("mtime"), v.I64("major")
+		v.Assume(v.And(class64(s.ModTime), class64(s.Devmajor)))
+	case 3:
+		s.Devminor, s.Mode = v.I64("minor"), v.U32("mode")
+		v.Assume(v.And(class64(s.Devminor), class32(s.Mode)))
+	}
 	if v.Bool("xattr") {
 		s.Xattrs = map[string][]byte{v.String("xk", 1): v.Bytes("xv", 1)}
 	}
